@@ -16,6 +16,20 @@ META = {
 }
 
 
+def datum_stores_in(crate, b, root=None):
+    out = []
+    for bi, si, s in b.statements():
+        if s["k"] != "assign":
+            continue
+        if mir.place_has_field(s["lhs"], C.ECLASS, "analysis_data"):
+            out.append((root or crate.root_of(b), b, bi, s))
+        elif "*" in s["lhs"]["p"] and not [p for p in s["lhs"]["p"] if p != "*"]:
+            r = strip_role(b.role_of_local(s["lhs"]["l"]))
+            if isinstance(r, tuple) and r[0] == "call" and "analysis_data" in r[1]:
+                out.append((root or crate.root_of(b), b, bi, s))
+    return out
+
+
 def datum_stores(crate):
     """[(root body, body, bb, stmt)] for stores to EClass.analysis_data or through a &mut obtained from it"""
     out = []
@@ -121,9 +135,15 @@ def a2(ctx):
             if idr[0] == "field" and idr[1][0] == "param":
                 dep_top |= C.lift_param(crate, cid, idr[1][1], tops)
     n = 0
-    for root, b, bi, s in stores:
-        if root.id not in members:
-            continue
+    # look at the merge entries with their single-use helpers inlined (the analysis part may live in a helper that
+    # gets the two ids as plain parameters); stores in other members are taken as they are
+    views = [mir.inline_view(crate, crate.bodies[t], keep=("analysis_data", "analysis_data_mut", "touched_class")) for t in sorted(tops)]
+    covered = {t for v in views for t in getattr(v, "inlined", [])} | set(tops)
+    stores2 = []
+    for v in views:
+        stores2 += datum_stores_in(crate, v, root=crate.bodies[v.id])
+    stores2 += [x for x in stores if x[0].id in members and x[0].id not in covered]
+    for root, b, bi, s in stores2:
         n += 1
         sr = strip_role(b.role_of_rvalue(s["rv"]))
         key = C.fkey(root)
